@@ -102,5 +102,11 @@ func invOK(x *Decimal) bool {
 	}
 	ok = vAnd(ok, x.mant[n-1] >= _DB/10)
 	ok = vAnd(ok, x.prec >= 1)
+	// no non-zero digit beyond the precision (decidable when the precision is concrete)
+	if vIsConc(int64(x.prec)) {
+		if p := int(x.prec); n*_DW > p && p >= 1 {
+			ok = vAnd(ok, sIsZero(sModPow10(sFromWords(x.mant), n*_DW-p)))
+		}
+	}
 	return ok
 }
